@@ -52,10 +52,10 @@ theorem makeStoneFriendly_sound (E : Ext) (env : Env) (perms : List String) (str
 theorem jsonCompatObjDecode_valid (E : Ext) (env : Env) (perms : List String) (strict : Bool)
     (hwf : envWF env = true) (hff : fieldFlagsWF env = true)
     (hcat : strict = true ∨ noCatchAllTrees env = true)
-    (hvis : visibleTagsPublic env perms = true) (hdt : noDefaultedTrees env = true)
+    (hvis : visibleTagsPublic env perms = true)
     (t : PTy) (j : JVal) (v : PyVal) (ht : tyWF env t = true)
     (h : jsonCompatObjDecode E env perms strict t j = .ok v) : validB E env t v = true := by
-  have hpre := decode_pre E env perms strict hwf hff hcat hvis hdt j t ht
+  have hpre := decode_pre E env perms strict hwf hff hcat hvis j t ht
   unfold jsonCompatObjDecode at h
   by_cases hn : t.flags.nullable = true
   · -- Nullable(...): decoded, then validated as a whole
